@@ -254,6 +254,16 @@ class Engine:
                 outs.append((s, vals))
             elif all(isinstance(v, VC) for v in vals):
                 outs.append((s, VC("".join(v.py for v in vals))))
+            elif any(type(v).__name__ == "VAStr" for v in vals):
+                from . import astr
+
+                acc = None
+                for v in vals:
+                    if isinstance(v, VC) and v.py == "":
+                        continue
+                    a = astr.as_astr(v)
+                    acc = a if acc is None else astr.concat(self, s, acc, a)
+                outs.append((s, acc if acc is not None else VC("")))
             else:
                 outs.append((s, VStr(z3.Concat(*[S.to_str_term(v) for v in vals])) if len(vals) > 1 else vals[0]))
         return outs
@@ -446,6 +456,8 @@ class Engine:
                 outs.append((s, it))
                 continue
 
+            lifted = []  # facts assumed inside the body (true for every element): hypotheses of the caller
+
             def body_at(x, s=s, rng=None):
                 """-> z3 Bool of (all ifs hold, element predicate holds) at element x"""
                 s0 = s.fork()
@@ -469,7 +481,12 @@ class Engine:
                         work = nxt
                     for s1, cs in work:
                         for s2, v in self.ev(gen.elt, s1):
-                            delta = s2.pc[base:]
+                            delta = []
+                            for p in s2.pc[base:]:
+                                if p.get_id() in s2.facts:
+                                    lifted.append(p)
+                                else:
+                                    delta.append(p)
                             if isinstance(v, Raise):
                                 t = z3.BoolVal(False)
                             else:
@@ -484,6 +501,8 @@ class Engine:
             items = None if isinstance(it, (SymRange, astr.VAStr)) else iter_items(self, s, it)
             if items is not None:
                 parts = [body_at(x) for x in items]
+                for p in lifted:
+                    s.assume(p)
                 r = (z3.And(*parts) if is_all else z3.Or(*parts)) if parts else z3.BoolVal(is_all)
                 outs.append((s, vbool(r)))
                 continue
@@ -496,6 +515,9 @@ class Engine:
                 raise Unsupported(f"quantification over {it!r}")
             rng = z3.And(i >= lo, i < hi)
             b = body_at(x, rng=rng)
+            for p in lifted:
+                lp = _select_patterns(p, i)
+                s.assume(z3.ForAll([i], z3.Implies(rng, p), **({"patterns": lp} if lp else {})))
             pats = _select_patterns(b, i)
             kw = {"patterns": pats} if pats else {}
             q = z3.ForAll([i], z3.Implies(rng, b), **kw) if is_all else z3.Exists([i], z3.And(rng, b), **kw)
